@@ -257,6 +257,24 @@ func MatchingFile(r *world.PRNG, cs []Change, style, header string) []byte {
 			o.Imports = append(o.Imports, ch.T.Imports(ch.K)...)
 		}
 	}
+	// an instance of one change spread over several lines INSIDE the elided
+	// arguments of another change's instance
+	var outer, innerCh *Change
+	for i := range cs {
+		switch cs[i].T.Name {
+		case "dots-multiline", "dots-args":
+			outer = &cs[i]
+		case "call-rename", "swap-args":
+			innerCh = &cs[i]
+		}
+	}
+	if outer != nil && innerCh != nil && r.Chance(1, 2) {
+		in := fmt.Sprintf("vfOld%d(%s)", innerCh.K, GenExpr(r, 1))
+		if innerCh.T.Name == "swap-args" {
+			in = fmt.Sprintf("vfOld%d(%s,\n%s)", innerCh.K, GenExpr(r, 1), GenExpr(r, 1))
+		}
+		o.Stmts = append(o.Stmts, fmt.Sprintf("vfOld%d(%s,\n%s,\n%s)", outer.K, GenExpr(r, 0), in, GenExpr(r, 0)))
+	}
 	if r.Chance(1, 2) {
 		o.Imports = append(o.Imports, "fmt")
 		o.Stmts = append(o.Stmts, "fmt.Println(\"x\")")
@@ -315,4 +333,35 @@ func AddDecoys(c *Case, r *world.PRNG) {
 		dir := r.Pick([]string{"", "", "pkg/", "internal/x/"})
 		c.SetNode(world.NodeSpec{Path: ProjDir + "/" + dir + nm, Kind: "file", Data: []byte("decoy " + nm + "\nvfOld1(1)\n")})
 	}
+	// a symlink with a Go file's name pointing at one of the targets: it must be
+	// ignored, and above all the target must not be processed a second time through it
+	if len(c.Files) > 0 && r.Chance(1, 4) {
+		t := c.Files[r.Intn(len(c.Files))]
+		c.SetNode(world.NodeSpec{Path: ProjDir + "/" + r.Pick([]string{"aa_link.go", "zz_link.go", "pkg/link_other.go"}), Kind: "symlink", Target: t.Path})
+		c.Extra["symlink_decoy"] = "1"
+	}
+	// stray non-directories whose names look like excluded directories or hidden files
+	if r.Chance(1, 5) {
+		switch r.Intn(3) {
+		case 0:
+			c.SetNode(world.NodeSpec{Path: ProjDir + "/.#worker.go", Kind: "symlink", Target: "user@host.4242:1700000000"})
+		case 1:
+			c.SetNode(world.NodeSpec{Path: ProjDir + "/" + r.Pick([]string{"", "pkg/"}) + "vendor", Kind: "symlink", Target: "../third_party"})
+		default:
+			c.SetNode(world.NodeSpec{Path: ProjDir + "/" + r.Pick([]string{"", "pkg/"}) + "_scratch", Kind: "file", Data: []byte("scratch\n")})
+		}
+	}
+	// a second, non-Go name for one of the targets (hard link): rewriting the
+	// target must not write through to it
+	if len(c.Files) > 0 && r.Chance(1, 5) {
+		t := c.Files[r.Intn(len(c.Files))]
+		c.SetNode(world.NodeSpec{Path: ProjDir + "/" + r.Pick([]string{"keep.orig", "pkg/saved.bak"}), Kind: "hardlink", Target: t.Path})
+		c.Extra["hardlink_decoy"] = "1"
+	}
+}
+
+// OddDir returns a directory prefix with characters that need care in
+// messages and format strings (always legal in file names).
+func OddDir(r *world.PRNG) string {
+	return r.Pick([]string{"my%20project/", "50%/", "with space/", "ünï/", "a#b/", "x+y=z/", "%s%d/", "pkg/", ""})
 }
